@@ -290,6 +290,12 @@ pub mod verif_hooks {
     use super::*;
     use std::future::Future;
 
+    /// Nameable alias of the crate-private credit provider type.
+    pub type VProvider = CreditProvider;
+
+    /// Nameable alias of the crate-private credit monitor type.
+    pub type VMonitor = ChannelCreditMonitor;
+
     pub fn send_pair(initial: u32) -> (CreditProvider, CreditUser) {
         credit_send_pair(initial)
     }
